@@ -70,6 +70,8 @@ class Event:
 
 # qualified names of every repository function the interpreter entered in this process (reported as evidence)
 INTERPRETED: set = set()
+import time as _t0mod
+PROCESS_START = _t0mod.time()
 
 
 class Run:
@@ -162,12 +164,15 @@ class Interp:
         import os as _os
         import time as _time
         t0 = _time.time()
-        budget = float(_os.environ.get("JASMSA_EXPLORE_BUDGET_S", "150"))
+        budget = float(_os.environ.get("JASMSA_EXPLORE_BUDGET_S", "600"))
+        total = float(_os.environ.get("JASMSA_TOTAL_BUDGET_S", "1200"))
         while stack:
-            if _time.time() - t0 > budget:
+            now = _time.time()
+            if now - t0 > budget or now - PROCESS_START > total:
                 # the exploration cannot be completed in reasonable time: the check ends here, fail closed (findings that
                 # are already established are still reported by the driver)
-                raise AnalysisError(f"exploration budget of {budget:.0f}s exceeded after {len(paths)} paths")
+                raise AnalysisError(f"exploration budget exceeded ({now - t0:.0f}s in this exploration, {now - PROCESS_START:.0f}s in "
+                                    f"all) after {len(paths)} paths")
             prefix = stack.pop()
             self.run = Run(prefix)
             try:
